@@ -539,6 +539,12 @@ def prime_with_plot_options(ctx, rng, label):
         if st != "ok":
             raised[f"{name}({kw})"] = chart
             ctx.count(f"priming/{label}/raised")
+            if name not in KNOWN_BROKEN_PLOTS and all(isinstance(v, bool) for v in kw.values()):
+                # (judged for on/off presentation switches only: a Literal option such as "spaghetti" may legitimately
+                # refuse a triangle without enough samples)
+                # the property: EVERY supported plot method returns a chart (D27: plot_sunset(uncertainty=False) did not)
+                ctx.fail(f"{name}({kw}): a supported plot method raised instead of returning a chart",
+                         {"plot": name, "kwargs": kw, **case0}, {"error": chart})
             continue
         ctx.count(f"priming/{label}/chart built")
         with warnings.catch_warnings():
